@@ -34,6 +34,8 @@ class Env(object):
         self.zone = "UTC"
         self.clock = 1700000000.0
         self.span = 0.0          # simulated seconds covered by clock jumps
+        self.epoch_days = 0      # matplotlib's date epoch, in days since 1970-01-01
+        self.epoch = None
         self._real_time = _time.time
         self._installed = False
         self.fired = Counter()
@@ -106,6 +108,10 @@ class Env(object):
                 else:
                     os.environ[name] = value
             _time.time = self._real_time
+            if self.epoch is not None:
+                import matplotlib.dates as md
+                md._reset_epoch_test_example()
+                self.epoch, self.epoch_days = None, 0
             if self._saved_tz is None:
                 os.environ.pop("TZ", None)
             else:
@@ -124,6 +130,18 @@ class Env(object):
         _time.tzset()
         if count:
             self.fired["tz_jump"] += 1
+
+    def set_mpl_epoch(self, epoch):
+        """matplotlib's date epoch (rcParam date.epoch / matplotlib.dates.set_epoch): a process-wide plotting
+        setting that date numbers are relative to.  Only ever changed before verif converts its first date."""
+        import matplotlib.dates as md
+        from . import model_calendar as MC
+        md._reset_epoch_test_example()
+        md.set_epoch(epoch)
+        y, m, d = int(epoch[0:4]), int(epoch[5:7]), int(epoch[8:10])
+        self.epoch_days = MC.days_from_civil(y, m, d)
+        self.epoch = epoch
+        self.fired["mpl_epoch"] += 1
 
     def jump_clock(self, delta):
         self.clock += delta
